@@ -77,8 +77,9 @@ def shorthand : List (Char × String) := [
 def isBoolFlag (f : String) : Bool :=
   f == "internal" || f == "tips" || f == "add-quotes" || f == "rm-quotes" || f == "auto" || f == "revert"
 
-/-- arguments → (flag, value) list; `none` when a token is not understood.  Fuel = number of tokens. -/
-def parseArgs : List String → Option CmdLine
+/-- arguments → (flag, value) list for a command with the given shorthands and boolean flags;
+    `none` when a token is not understood (positional arguments are not).  Structural on the tokens. -/
+def parseArgsWith (short : List (Char × String)) (isBool : String → Bool) : List String → Option CmdLine
   | [] => some []
   | a :: rest =>
     let long : Option (String × Option String) :=
@@ -88,16 +89,32 @@ def parseArgs : List String → Option CmdLine
         | n :: v => some (n, some ("=".intercalate v))
         | [] => none
       else match a.toList with
-        | ['-', c] => (shorthand.lookup c).map fun n => (n, none)
+        | ['-', c] => (short.lookup c).map fun n => (n, none)
         | _ => none
     match long with
     | none => none
-    | some (n, some v) => (parseArgs rest).map fun cl => (n, v) :: cl
+    | some (n, some v) => (parseArgsWith short isBool rest).map fun cl => (n, v) :: cl
     | some (n, none) =>
-      if isBoolFlag n then (parseArgs rest).map fun cl => (n, "true") :: cl
+      if isBool n then (parseArgsWith short isBool rest).map fun cl => (n, "true") :: cl
       else match rest with
-        | v :: rest' => (parseArgs rest').map fun cl => (n, v) :: cl
+        | v :: rest' => (parseArgsWith short isBool rest').map fun cl => (n, v) :: cl
         | [] => none
+
+/-- the arguments of a `gotree rename` template -/
+def parseArgs (args : List String) : Option CmdLine := parseArgsWith shorthand isBoolFlag args
+
+/-- everything the outcome of `gotree rename` can depend on besides the trees: the branch of the
+    cascade and the values that branch reads (cmd/rename.go:100-170) -/
+def behaviour (cl : CmdLine) : Mode × List String :=
+  let m := renameMode cl
+  let common := [value cl "tips", value cl "internal", value cl "input", value cl "output"]
+  let writesMap := value cl "map"   -- the name map is written to --map in every mode but `map`, where it is read
+  match m with
+  | .errNothingToRename | .errReplaceMissing | .errNoMap => (m, [])
+  | .auto => (m, value cl "length" :: writesMap :: common)
+  | .regexp => (m, value cl "regexp" :: value cl "replace" :: writesMap :: common)
+  | .addQuotes | .rmQuotes => (m, writesMap :: common)
+  | .map => (m, value cl "map" :: value cl "revert" :: value cl "input" :: [value cl "output"])
 
 /-- the error class visible in the outcome of a run ("" = the command went on to rename) -/
 def observedClass (outcome : String) : String :=
@@ -129,5 +146,56 @@ def meanRange (minGiven maxGiven : Bool) (lo hi : Rat) : Option (Rat × Rat) :=
 /-- the documented defaults of the two options -/
 def defaultMin : Rat := 1 / 1000
 def defaultMax : Rat := 1 / 20
+
+/-- decimal text of a flag value ("0.001", "-1", "3") -/
+def parseDec (s : String) : Option Rat :=
+  let (neg, body) := match s.toList with
+    | '-' :: r => (true, String.ofList r)
+    | _ => (false, s)
+  let mk (i f : String) : Option Rat :=
+    match (if i == "" then some 0 else i.toNat?), (if f == "" then some 0 else f.toNat?) with
+    | some a, some b =>
+      if i == "" && f == "" then none else
+      let q : Rat := (a : Rat) + (b : Rat) / ((10 ^ f.length : Nat) : Rat)
+      some (if neg then -q else q)
+    | _, _ => none
+  match body.splitOn "." with
+  | [i] => mk i ""
+  | [i, f] => mk i f
+  | _ => none
+
+def flagDefaults : List (String × String) := [
+  ("mean", "0.1"), ("min-mean", "0.001"), ("max-mean", "0.05"), ("min-len", "-1"), ("max-len", "-1"),
+  ("external", "true"), ("internal", "true"), ("seed", "-1"), ("input", "stdin"), ("output", "stdout")]
+
+def shorthand : List (Char × String) := [('m', "mean"), ('i', "input"), ('o', "output"), ('t', "threads")]
+
+def isBoolFlag (f : String) : Bool := f == "external" || f == "internal"
+
+def parseArgs (args : List String) : Option Rename.CmdLine := Rename.parseArgsWith shorthand isBoolFlag args
+
+def valueOf (cl : Rename.CmdLine) (f : String) : String := (cl.reverse.lookup f).getD ((flagDefaults.lookup f).getD "")
+
+/-- everything the outcome of `gotree brlen setrand` depends on besides the trees
+    (cmd/randbrlen.go:57-75): which mean, the length window, which branches, the seed -/
+structure Behaviour where
+  range : Option (Rat × Rat)
+  mean : Option Rat          -- read only when no range is drawn
+  minLen : Option Rat
+  maxLen : Option Rat
+  external : String
+  internal : String
+  seed : String
+  io : String × String
+  deriving DecidableEq
+
+def behaviour (cl : Rename.CmdLine) : Option Behaviour :=
+  match parseDec (valueOf cl "min-mean"), parseDec (valueOf cl "max-mean"), parseDec (valueOf cl "mean"),
+        parseDec (valueOf cl "min-len"), parseDec (valueOf cl "max-len") with
+  | some lo, some hi, some m, some a, some b =>
+    let r := meanRange (Rename.changed cl "min-mean") (Rename.changed cl "max-mean") lo hi
+    some ⟨r, if r.isSome then none else some m, some a, some b, valueOf cl "external", valueOf cl "internal",
+          valueOf cl "seed", (valueOf cl "input", valueOf cl "output")⟩
+  | _, _, _, _, _ => none
 
 end Gotree.C19.Setrand
